@@ -195,32 +195,41 @@ def h_bound(tid: bytes, form: str, live_commit: bool) -> None:
     reached()
 
 
-def h_datetime(sel: int, delta: int, form: str) -> None:
-    """Datetime forms of the historical point around every instant of the history."""
+def h_datetime(sel: int, delta: int, form: str, tz: str) -> None:
+    """Datetime forms of the historical point around every instant of the history: naive (UTC by
+    definition) and timezone-aware datetimes with a non-zero offset."""
     with untraced():
         env = T.Env()
         g = GR.G(env).build('G1')
         m = GR.model_from_storage(g.s)
         n = len(m.txns)
     k = choose(sel, n)
-    d = choose(delta + 1, 3) - 1                # -1, 0, +1 microseconds (about 4295 raw ticks each)
+    d = choose(delta + 1, 3) - 1                # -1, 0, +1 steps of 3 microseconds
     with untraced():
         import datetime
         from persistent.TimeStamp import TimeStamp
         ts = TimeStamp(m.txns[k].tid)
-        y, mo, da, hh, mi = ts.year(), ts.month(), ts.day(), ts.hour(), ts.minute()
         sec = ts.second()
-        dt = datetime.datetime(y, mo, da, hh, mi, int(sec), int(round((sec - int(sec)) * 1000000)) % 1000000)
-        dt = dt + datetime.timedelta(microseconds=d * 3)
-        bound = DBM.getTID(dt if form == 'at' else None, dt if form == 'before' else None)
+        utc = datetime.datetime(ts.year(), ts.month(), ts.day(), ts.hour(), ts.minute(), int(sec),
+                                int(round((sec - int(sec)) * 1000000)) % 1000000)
+        utc = utc + datetime.timedelta(microseconds=d * 3)
+        # the bound the property means, computed here from the UTC instant (not with the code under test)
+        want = TimeStamp(utc.year, utc.month, utc.day, utc.hour, utc.minute, utc.second + utc.microsecond / 1000000.0)
+        bound = want.laterThan(want).raw() if form == 'at' else want.raw()
+        if tz == 'naive':
+            dt = utc
+        else:
+            off = datetime.timedelta(hours=5, minutes=30) if tz == 'east' else datetime.timedelta(hours=-7)
+            dt = utc.replace(tzinfo=datetime.timezone.utc).astimezone(datetime.timezone(off))
         last = m.last_tid()
-        future = bound > DBM.getTID(last, None)
+        lts = TimeStamp(last)
+        future = bound > lts.laterThan(lts).raw()
         try:
             hc = g.db.open(g.tm.__class__(), **{form: dt})
             opened = True
         except ValueError:
             opened = False
-        check(opened == (not future), 'datetime bound: future check wrong', k, d)
+        check(opened == (not future), 'datetime bound: future check wrong', k, d, tz)
         if opened:
             exp = GR.state_at(m, bound)
             for o in m.oids():
@@ -228,7 +237,7 @@ def h_datetime(sel: int, delta: int, form: str) -> None:
                     got = hc._storage.load(o)[0]
                 except KeyError:
                     got = None
-                check(got == exp.get(o), 'datetime bound: state differs', o, k, d)
+                check(got == exp.get(o), 'datetime bound: state differs from the state at that instant', o, k, d, tz)
             hc.close()
     reached()
 
@@ -246,10 +255,10 @@ HARNESSES = [
             thorough=dict(timeout=900, shards=shards(form=['before', 'at'], live_commit=[True, False]))),
     Harness('datetime', h_datetime,
             decides='datetime forms of at/before around every instant of the history select the same states',
-            symbolic='selector over transactions, microsecond offset selector (-3, 0, +3 us)',
+            symbolic='selector over transactions, microsecond offset selector (-3, 0, +3 us); naive / aware (+05:30) / aware (-07:00) datetimes are shards',
             bounds='history G1', oracle='state at getTID(datetime)', code=['DB.toTimeStamp', 'DB.getTID', 'DB.open'],
-            quick=dict(timeout=100, shards=shards(form=['at', 'before'])),
-            thorough=dict(timeout=300, shards=shards(form=['at', 'before']))),
+            quick=dict(timeout=100, shards=shards(form=['at', 'before'], tz=['naive', 'east', 'west'])),
+            thorough=dict(timeout=300, shards=shards(form=['at', 'before'], tz=['naive', 'east', 'west']))),
 ]
 
 MANIFEST = dict(
